@@ -79,6 +79,12 @@ OBLIGATIONS.append(replay_obl(2, 1, 0, 3))
 OBLIGATIONS.append(replay_obl(0, 2, 2, 6, tier="thorough"))
 OBLIGATIONS.append(replay_obl(2, 2, 2, 1, tier="thorough"))
 
+# c: compaction outputs are sorted, duplicate-free runs cut only between keys, reported with
+# smallest/largest = first/last key added, at level+1 (real ldb_do_compaction_work)
+from obl.dbimpl_compact import compaction_obls
+_c = compaction_obls("c")
+OBLIGATIONS += [o for o in _c if o.tier == "quick"][3:7] + [o for o in _c if o.tier != "quick"][2:5]
+
 META = {
     "level": "model_checking",
     "level_text": "Bounded model checking (CBMC) of lcdb's own version_set.c builder (builder_apply, builder_save_to, "
